@@ -164,6 +164,13 @@ fn yacc_once(src: String) -> Result<String, String> {
                     if sps.is_empty() { return Err("error without a span".into()); }
                     for sp in sps { if !span_ok(&src, sp) { return Err(format!("error span {}..{} cannot be rendered", sp.start(), sp.end())); } }
                 }
+                // .. and the warnings (unused rules and tokens), whose spans are looked up in the AST's span table
+                let ws = match catch_unwind(AssertUnwindSafe(|| info.ast().warnings())) { Ok(w) => w, Err(_) => return Err(format!("panic in warnings() ({:?})", kind)) };
+                for w in &ws {
+                    let sps = cfgrammar::Spanned::spans(w);
+                    if sps.is_empty() { return Err("warning without a span".into()); }
+                    for sp in sps { if !span_ok(&src, sp) { return Err(format!("warning span {}..{} cannot be rendered", sp.start(), sp.end())); } }
+                }
             }
         }
     }
@@ -196,6 +203,12 @@ pub fn search_yacc(tier: &str) -> Option<Value> {
                 if o.fails { return Some(witness("c12_yacc", json!({"text": s}), &o)); }
             }
         } }
+    } }
+    // tokens whose first mention is a %prec, a %left .. line, %avoid_insert, %implicit_tokens or %epp (every way into the token table)
+    for decl in ["", "%left 'x'\n", "%token x\n", "%avoid_insert 'x'\n", "%epp x \"X\"\n", "%left 'x' 'y'\n%right 'z'\n"] { for body in ["A: 'a' %prec 'x';", "A: 'a' %prec x;", "A: %prec 'x' 'a';", "A: 'a' %prec 'x' | 'b' %prec 'y'; B: 'z';", "A: B %prec 'q'; B: ;"] {
+        let s = format!("{}%%\n{}", decl, body);
+        let o = run_yacc(&s);
+        if o.fails { return Some(witness("c12_yacc", json!({"text": s}), &o)); }
     } }
     let n = if tier == "thorough" { 300_000 } else { 30_000 };
     let mut st: u64 = 0xD1B54A32D192ED03;
